@@ -43,6 +43,22 @@ TInsert ==
     IF b = <<>> \/ FailKinds(b) = {} THEN Insert(b) /\ res' = Ev.res
     ELSE Ev.res \in FailKinds(b) /\ Fail(Ev.res)
 
+\* Two inserts issued concurrently: the results and the store afterwards must be those of ONE of the two
+\* sequential orders (a refused insert changes nothing, an accepted one is applied completely).
+BatchOf(ids) == [i \in 1..Len(ids) |-> D[ids[i]]]
+ResOkIn(S, b, r) == IF b = <<>> \/ FailKindsIn(S, b) = {} THEN r = ROk ELSE r \in FailKindsIn(S, b)
+AfterIn(S, b, r) == IF r = ROk THEN InsertIn(S, b) ELSE S
+TPar ==
+    LET x == BatchOf(Ev.a)  y == BatchOf(Ev.b) IN
+    \E o \in {1, 2} :
+        LET f  == IF o = 1 THEN x ELSE y      rf == IF o = 1 THEN Ev.ra ELSE Ev.rb
+            g  == IF o = 1 THEN y ELSE x      rg == IF o = 1 THEN Ev.rb ELSE Ev.ra
+            S1 == AfterIn(StateRec, f, rf)
+            S2 == AfterIn(S1, g, rg)
+        IN /\ ResOkIn(StateRec, f, rf) /\ ResOkIn(S1, g, rg)
+           /\ hdr' = S2.hdr /\ sampled' = S2.sampled /\ pruned' = S2.pruned /\ meta' = S2.meta
+           /\ res' = rg
+
 TStep ==
     /\ l <= Len(Rec) /\ l' = l + 1
     /\ LET n == Ev.name IN
@@ -50,6 +66,7 @@ TStep ==
        \/ n = "hdr"    /\ D' = [i \in (DOMAIN D) \cup {Ev.d.id} |-> IF i = Ev.d.id THEN Ev.d ELSE D[i]]
                        /\ UNCHANGED <<hdr, sampled, pruned, meta, res>>
        \/ n = "insert" /\ TInsert /\ Observed(Ev.st) /\ UNCHANGED D
+       \/ n = "par"    /\ TPar /\ Observed(Ev.st) /\ UNCHANGED D
        \/ n = "remove" /\ RemoveHeight(Ev.h) /\ res' = Ev.res /\ Observed(Ev.st) /\ UNCHANGED D
        \/ n = "mark"   /\ MarkSampled(Ev.h) /\ res' = Ev.res /\ Observed(Ev.st) /\ UNCHANGED D
        \/ n = "meta"   /\ UpdateMeta(Ev.h, ToSet(Ev.cs)) /\ res' = Ev.res /\ Observed(Ev.st) /\ UNCHANGED D
